@@ -74,3 +74,5 @@ package pixiechain
 //@   -- a header reaches storage only if its parent is stored, its seal verified, the sealer is a member of the
 //@   -- validator set in effect, has not sealed within the recent-signer window, and the difficulty matched its turn
 //@   callsite[c29-stored-only-valid] addHeader#1 requires parentOK && sigOK && gsigner == signer && notRecent && valid && dOK && inTurnHV.Validators[widx] == signer
+//@   -- the sealer has not sealed within the recent-signer window: the header is more than len(validators)/2 above its last seal
+//@   callsite[c29-outside-recent-window] addHeader#1 requires lastSeenHeight <= 0 || bigI64(ref(header.Number)) > lastSeenHeight + int64(len(inTurnHV.Validators)/2)
